@@ -1,6 +1,7 @@
 import LruMem.Model.Step
 import LruMem.Model.MemSize
 import LruMem.Model.Ptr
+import LruMem.Model.Panic
 /-!
 # `lrudriver`: replays the harness's operation lines on the Level A model
 
@@ -50,11 +51,14 @@ def outStr : Out → String
   | .items kind l => "I[" ++ ";".intercalate (l.map (itemStr kind)) ++ "]"
   | .cloned => "cloned"
 
+/-- sort key for canonicalised event lists: token, then kind rank -/
 def evTok : Ev → Nat
-  | .dropK t | .dropV t | .szK t | .szV t | .closure t => t
-  | .cloneK s _ | .cloneV s _ => s
-  | .pred k _ => k
-  | .hash id => id
+  | .szK t | .szV t => 16 * t
+  | .cloneK s _ | .cloneV s _ => 16 * s + 1
+  | .pred k _ => 16 * k + 2
+  | .closure t => 16 * t + 3
+  | .dropK t | .dropV t => 16 * t + 4
+  | .hash id => 16 * id + 5
 
 def evStr : Ev → Option String
   | .hash _ => none
@@ -82,7 +86,7 @@ def hashIds (evs : List Ev) : List Nat :=
   evs.filterMap fun | .hash id => some id | _ => none
 
 def statusStr : Status → String
-  | .ok => "ok" | .implPanic => "panic" | .diverge => "diverge" | .ub => "ub"
+  | .ok => "ok" | .implPanic => "panic" | .diverge => "diverge" | .ub => "ub" | .userPanic => "panic"
 
 def entryStr (p : Params) (e : Entry) : String :=
   s!"{pairStr (e.key, e.val)}:{entrySize p e.key e.val}"
@@ -104,10 +108,10 @@ def obsStr (p : Params) (full : Bool) (c : Cache) (lb : String := "ok") : String
 
 structure St where
   p : Params := ⟨64, 16, 18446744073709551615⟩
-  caches : Array (Option (Cache × CacheB)) := #[]
+  caches : Array (Option (Cache × Option CacheB)) := #[]
 
-def St.get? (s : St) (i : Nat) : Option (Cache × CacheB) := (s.caches[i]?).join
-def St.set (s : St) (i : Nat) (c : Option (Cache × CacheB)) : St :=
+def St.get? (s : St) (i : Nat) : Option (Cache × Option CacheB) := (s.caches[i]?).join
+def St.set (s : St) (i : Nat) (c : Option (Cache × Option CacheB)) : St :=
   let cs := if i < s.caches.size then s.caches else s.caches ++ Array.replicate (i + 1 - s.caches.size) none
   { s with caches := cs.set! i c }
 
@@ -136,6 +140,18 @@ def parseKind : String → Option IterKind
   | "iter" => some .iter | "keys" => some .keys | "values" => some .values
   | "drain" => some .drain | "into" => some .intoIter | "intok" => some .intoKeys
   | "intov" => some .intoValues | _ => none
+
+def parsePk (s : String) : Option (CbKind × Nat) :=
+  match s.splitOn ":" with
+  | [k, n] =>
+    let kind := match k with
+      | "hash" => some CbKind.hash | "sizek" => some .szK | "sizev" => some .szV
+      | "clonek" => some .cloneK | "clonev" => some .cloneV | "pred" => some .pred | "closure" => some .closure
+      | _ => none
+    match kind, n.toNat? with
+    | some kd, some n => some (kd, n)
+    | _, _ => none
+  | _ => none
 
 def parseCalls (s : String) : List Bool :=
   s.toList.filterMap fun ch => if ch = 'f' then some true else if ch = 'b' then some false else none
@@ -214,7 +230,8 @@ def pickOracle (run : Oracle → Res) (items : Nat) (ocap obk : Nat) (allocOk : 
 def resLine (p : Params) (full sorted : Bool) (r : Res) (live : Option Cache) (lb : String := "ok") : String :=
   let hs := hashIds r.evs
   let s := s!"ret={outStr r.out} st={statusStr r.status} h={hs.length} ev={evsStr r.evs sorted}"
-  let s := if full then s ++ " hs=" ++ natList (sortBy id hs) else s
+  let panicked := r.status == .userPanic || r.status == .implPanic
+  let s := if full then s ++ " hs=" ++ (if panicked then "-" else natList (sortBy id hs)) else s
   match live with
   | some c => s ++ obsStr p full c lb
   | none => if lb == "ok" then s else s ++ " lb=" ++ lb
@@ -227,8 +244,15 @@ def processLine (s : St) (line : String) : St × String :=
       | [a, b] => (a, b)
       | [a] => (a, "")
       | _ => (line, "")
-    let toks := opPart.splitOn " "
+    let toks0 := opPart.splitOn " "
     let hints := hintPart.splitOn " "
+    -- panic directive `!kind:n` (last token) and the harness's report `pk=kind:n` of where an `eq`
+    -- panic fell (the lookup opened by that hash call)
+    let directive := toks0.getLast?.bind fun t => if t.startsWith "!" then parsePk (t.drop 1).toString else none
+    let toks := if (toks0.getLast?.map (·.startsWith "!")).getD false then toks0.dropLast else toks0
+    let hintPk := hints.findSome? fun t => if t.startsWith "pk=" then parsePk (t.drop 3).toString else none
+    let isEq := (toks0.getLast?.map (·.startsWith "!eq:")).getD false
+    let pk : Option (CbKind × Nat) := if isEq then hintPk else directive
     let ocap := (hints[0]? >>= String.toNat?).getD 0
     let obk := (hints[1]? >>= String.toNat?).getD 0
     let allocOk := !(hints.contains "af")
@@ -239,9 +263,9 @@ def processLine (s : St) (line : String) : St × String :=
       | _ => (s, "bad-op")
     | mode :: "new" :: rest =>
       match nats rest with
-      | some [i, m] => (s.set i (some (Cache.new m, CacheB.new m 0)),
+      | some [i, m] => (s.set i (some (Cache.new m, some (CacheB.new m 0))),
           "ret=unit st=ok h=0 ev=[]" ++ (if mode == "F" then " hs=[]" else "") ++ obsStr s.p (mode == "F") (Cache.new m))
-      | some [i, m, n] => (s.set i (some (Cache.withCapacity m n, CacheB.new m n)),
+      | some [i, m, n] => (s.set i (some (Cache.withCapacity m n, some (CacheB.new m n))),
           "ret=unit st=ok h=0 ev=[]" ++ (if mode == "F" then " hs=[]" else "") ++ obsStr s.p (mode == "F") (Cache.withCapacity m n))
       | _ => (s, "bad-op")
     | [mode, "clone", i, j, base] =>
@@ -249,10 +273,21 @@ def processLine (s : St) (line : String) : St × String :=
       | some [i, j, base] =>
         match s.get? i with
         | some (c, cb) =>
-          let r := clone c base
-          let db := cb.clone base
-          let res : Res := { cache := r.1, out := .cloned, evs := r.2.1, status := r.2.2 }
-          (s.set j (some (r.1, compactB db)), resLine s.p (mode == "F") false res (some r.1) (lbStr r.1 db))
+          match pk with
+          | some (kind, n) =>
+            if cbCount kind (clone c base).2.1 < n then
+              let r := clone c base
+              let res : Res := { cache := r.1, out := .cloned, evs := r.2.1, status := r.2.2 }
+              (s.set j (some (r.1, none)), resLine s.p (mode == "F") false res (some r.1))
+            else
+              let r := stepP s.p c (.cloneProbe base) {} kind n
+              (s, resLine s.p (mode == "F") true r none)
+          | none =>
+            let r := clone c base
+            let db := cb.map (·.clone base)
+            let res : Res := { cache := r.1, out := .cloned, evs := r.2.1, status := r.2.2 }
+            (s.set j (some (r.1, db.map compactB)), resLine s.p (mode == "F") false res (some r.1)
+              (match db with | some d => lbStr r.1 d | none => "ok"))
         | none => (s, "bad-cache")
       | _ => (s, "bad-op")
     | [mode, "drop", i] =>
@@ -261,7 +296,8 @@ def processLine (s : St) (line : String) : St × String :=
         match s.get? i with
         | some (c, cb) =>
           let res : Res := { cache := c, out := .unit, evs := dropCache c }
-          (s.set i none, resLine s.p (mode == "F") true res none (if cb.dropCache.ub then "ub" else "ok"))
+          (s.set i none, resLine s.p (mode == "F") true res none
+            (match cb with | some b => (if b.dropCache.ub then "ub" else "ok") | none => "ok"))
         | none => (s, "bad-cache")
       | none => (s, "bad-op")
     | mode :: i :: opToks =>
@@ -272,12 +308,22 @@ def processLine (s : St) (line : String) : St × String :=
           let full := mode == "F"
           if op.consumes then
             let r := step s.p c op {}
-            let cb' := stepB s.p cb op {}
-            (s.set i none, resLine s.p full false r none (if cb'.ub then "ub" else "ok"))
+            let ub := match cb with | some b => (stepB s.p b op {}).ub | none => false
+            (s.set i none, resLine s.p full false r none (if ub then "ub" else "ok"))
           else
-            let (o, r) := pickOracle (step s.p c op) c.shape.items ocap obk allocOk
-            let cb' := compactB (stepB s.p cb op o)
-            (s.set i (some (r.cache, cb')), resLine s.p full (isSortedOp op) r (some r.cache) (lbStr r.cache cb'))
+            match pk with
+            | some (kind, n) =>
+              let (_, r) := pickOracle (fun o => stepP s.p c op o kind n) c.shape.items ocap obk allocOk
+              if r.status == .userPanic then
+                -- the pointer model does not follow user panics: Level B tracking ends here
+                (s.set i (some (r.cache, none)), resLine s.p full true r (some r.cache))
+              else
+                (s.set i (some (r.cache, none)), resLine s.p full (isSortedOp op) r (some r.cache))
+            | none =>
+              let (o, r) := pickOracle (step s.p c op) c.shape.items ocap obk allocOk
+              let cb' := cb.map fun b => compactB (stepB s.p b op o)
+              (s.set i (some (r.cache, cb')), resLine s.p full (isSortedOp op) r (some r.cache)
+                (match cb' with | some b => lbStr r.cache b | none => "ok"))
         | none => (s, "bad-cache")
       | _, _ => (s, "bad-op")
     | _ => (s, "bad-op")
